@@ -2,7 +2,7 @@ package sim
 
 import (
 	"bytes"
-	"encoding/json"
+	"context"
 	"errors"
 	"fmt"
 	"io"
@@ -38,10 +38,11 @@ type s3Call struct {
 }
 
 type s3Parked struct {
-	id   int
-	op   string
-	key  string
-	ch   chan string // outcome
+	id     int
+	client int
+	op     string
+	key    string
+	ch     chan string // outcome
 }
 
 // SimS3 implements persist/s3.S3Interface.
@@ -64,13 +65,17 @@ func NewSimS3() *SimS3 {
 	return &SimS3{objects: map[string][]byte{}, Fired: map[string]int{}}
 }
 
-func (s *SimS3) park(op, key string) string {
+func (s *SimS3) park(ctx aws.Context, op, key string) string {
 	s.mu.Lock()
 	if !s.scheduled {
 		s.mu.Unlock()
 		return "ok"
 	}
-	p := &s3Parked{id: s.nextID, op: op, key: key, ch: make(chan string)}
+	client := -1
+	if c, ok := ctx.Value(beClientKey{}).(int); ok {
+		client = c
+	}
+	p := &s3Parked{id: s.nextID, client: client, op: op, key: key, ch: make(chan string)}
 	s.nextID++
 	s.parked = append(s.parked, p)
 	s.mu.Unlock()
@@ -81,7 +86,13 @@ func (s *SimS3) parkedSorted() []*s3Parked {
 	s.mu.Lock()
 	defer s.mu.Unlock()
 	ps := append([]*s3Parked(nil), s.parked...)
-	sort.Slice(ps, func(i, j int) bool { return ps[i].id < ps[j].id })
+	// by client (each client has at most one call in flight): arrival order is not deterministic
+	sort.Slice(ps, func(i, j int) bool {
+		if ps[i].client != ps[j].client {
+			return ps[i].client < ps[j].client
+		}
+		return ps[i].id < ps[j].id
+	})
 	return ps
 }
 
@@ -122,7 +133,7 @@ func (s *SimS3) DeleteObjectWithContext(ctx aws.Context, in *s3.DeleteObjectInpu
 }
 
 func (s *SimS3) GetObjectWithContext(ctx aws.Context, in *s3.GetObjectInput, opts ...request.Option) (*s3.GetObjectOutput, error) {
-	outcome := s.park("get", aws.StringValue(in.Key))
+	outcome := s.park(ctx, "get", aws.StringValue(in.Key))
 	s.mu.Lock()
 	defer s.mu.Unlock()
 	s.gets++
@@ -152,7 +163,7 @@ func (s *SimS3) PutObjectWithContext(ctx aws.Context, in *s3.PutObjectInput, opt
 	if in.Body != nil {
 		body, _ = io.ReadAll(in.Body)
 	}
-	outcome := s.park("put", aws.StringValue(in.Key))
+	outcome := s.park(ctx, "put", aws.StringValue(in.Key))
 	s.mu.Lock()
 	defer s.mu.Unlock()
 	s.puts++
@@ -579,6 +590,8 @@ func registerModel() porcupine.Model {
 	}
 }
 
+type beClientKey struct{}
+
 func (w *World) runBackendConcurrent(sc *Scenario, p mast.Persist, s3sim *SimS3, clients int) {
 	s3sim.mu.Lock()
 	s3sim.scheduled = true
@@ -588,10 +601,10 @@ func (w *World) runBackendConcurrent(sc *Scenario, p mast.Persist, s3sim *SimS3,
 		out       regOutput
 		call, ret int
 		client    int
-		done      bool
 	}
-	var mu sync.Mutex
-	seq := 0
+	// Every stamp (invoke / return sequence number) is assigned by the scheduler at
+	// quiescence, in client order, so the recorded history is a pure function of the tape.
+	cur := make([]*rec, clients) // in-flight record per client (written by the client before it calls)
 	var recs []*rec
 	var wg sync.WaitGroup
 	perClient := make([][]Op, clients)
@@ -602,80 +615,88 @@ func (w *World) runBackendConcurrent(sc *Scenario, p mast.Persist, s3sim *SimS3,
 		wg.Add(1)
 		go func(c int) {
 			defer wg.Done()
+			cctx := context.WithValue(ctx, beClientKey{}, c)
 			for _, op := range perClient[c] {
 				r := &rec{in: regInput{Store: op.K == "store", Name: op.Key, Val: op.Val}, client: c}
-				mu.Lock()
-				seq++
-				r.call = seq
-				recs = append(recs, r)
-				mu.Unlock()
+				cur[c] = r
 				name := beName(op.Key)
 				if op.K == "store" {
-					err := p.Store(ctx, name, append([]byte(nil), bePayload(op.Val)...))
+					err := p.Store(cctx, name, append([]byte(nil), bePayload(op.Val)...))
 					r.out = regOutput{Err: err != nil, Injected: err != nil && errors.Is(err, errInjS3)}
 				} else {
-					b, err := p.Load(ctx, name)
+					b, err := p.Load(cctx, name)
 					r.out = regOutput{Err: err != nil, Injected: err != nil && errors.Is(err, errInjS3), Hash: fnv64(b), Len: len(b)}
 				}
-				mu.Lock()
-				seq++
-				r.ret = seq
-				r.done = true
-				mu.Unlock()
 			}
 		}(c)
 	}
 	finished := make(chan struct{})
 	go func() { wg.Wait(); close(finished) }()
-	steps := 0
+	steps, seq := 0, 0
+	lastReleased := -1
+	var inflight = make([]*rec, clients)
 	for {
 		synctest.Wait()
+		if lastReleased >= 0 {
+			if r := inflight[lastReleased]; r != nil {
+				seq++
+				r.ret = seq
+				recs = append(recs, r)
+				inflight[lastReleased] = nil
+			}
+			lastReleased = -1
+		}
+		done := false
 		select {
 		case <-finished:
-			goto done
+			done = true
 		default:
+		}
+		if done {
+			break
 		}
 		parked := s3sim.parkedSorted()
 		if len(parked) == 0 {
 			w.fail("backend-deadlock/s3", "clients neither finished nor parked in the S3 client at quiescence")
 			return
 		}
+		for _, pk := range parked {
+			if pk.client >= 0 && pk.client < clients && inflight[pk.client] == nil && cur[pk.client] != nil {
+				seq++
+				cur[pk.client].call = seq
+				inflight[pk.client] = cur[pk.client]
+			}
+		}
 		pk := parked[w.ch.Intn(len(parked))]
 		outcome := "ok"
 		if w.ch.Intn(12) == 0 {
 			outcome = "fail"
 		}
-		w.log.Str(fmt.Sprintf("%s:%s:%s", pk.op, pk.key, outcome))
+		w.log.Str(fmt.Sprintf("c%d:%s:%s:%s", pk.client, pk.op, pk.key, outcome))
 		steps++
+		lastReleased = pk.client
 		s3sim.release(pk, outcome)
 	}
-done:
 	w.st.Steps += steps
 	w.st.Ops += len(sc.Ops)
 	w.st.Probes["concurrent-s3-histories"]++
 	var ops []porcupine.Operation
 	for _, r := range recs {
-		if !r.done {
-			continue
-		}
 		ops = append(ops, porcupine.Operation{ClientId: r.client, Input: r.in, Call: int64(r.call), Output: r.out, Return: int64(r.ret)})
 	}
 	w.st.OracleEvals++
 	res := porcupine.CheckOperationsTimeout(registerModel(), ops, 5*time.Second)
 	switch res {
 	case porcupine.Illegal:
-		b, _ := json.Marshal(recs)
-		_ = b
 		w.fail("concurrent-history-not-linearizable/s3", "the recorded history of %d concurrent store/load calls over the S3 adapter is not linearizable against the write-once register model", len(ops))
 	case porcupine.Unknown:
 		w.st.Probes["porcupine-timeout-inconclusive"]++
 	}
 	// injected S3 errors must have surfaced: every "fail" outcome produced an Err result
-	// (checked in aggregate: number of failed calls >= number of injected failures)
 	injected := s3sim.Fired["s3-put-error"] + s3sim.Fired["s3-get-error"]
 	failedCalls := 0
 	for _, r := range recs {
-		if r.done && r.out.Err {
+		if r.out.Err {
 			failedCalls++
 		}
 	}
